@@ -157,6 +157,12 @@ func memoryMonitor() {
 		time.Sleep(50 * time.Millisecond)
 		metrics.Read(samples)
 		if samples[0].Value.Kind() == metrics.KindUint64 && samples[0].Value.Uint64() > limit {
+			// the metric counts objects that are dead but not yet swept as well: collect first, only what is still reachable counts
+			runtime.GC()
+			metrics.Read(samples)
+			if samples[0].Value.Uint64() <= limit {
+				continue
+			}
 			buf := make([]byte, 1<<20)
 			n := runtime.Stack(buf, true)
 			fmt.Fprintf(os.Stderr, "fatal error: out of memory (verif monitor: live heap %d MiB exceeds %d MiB)\n\n%s\n", samples[0].Value.Uint64()>>20, limit>>20, buf[:n])
